@@ -4,7 +4,7 @@ import hashsigs
 
 RULE = ("counter hook (the real CompressedUsedLeafsIndexes::to / increment and HssPrivateKey::get_lifetime) over height tuples of length 1..8 over "
         "{2(hook),5,10,15,20,25} (quick: seeded sample; thorough: all tuples up to length 4 and a sample beyond) x counters 0, 1, each radix boundary +-1, last, "
-        "last+1, random; tall lists (total height >= 64) included; oracle: independent mixed-radix computation")
+        "last+1, random; tall lists (total height >= 64) included; oracle: independent mixed-radix computation; end-to-end successor states (counter+1 / the exact wiped form) on six affordable keys")
 ASSUMPTIONS = ["how hash-sigs reads the 8-byte counter is checked against the cisco hash-sigs tool shipped in the repository (tests/demo) for SHA-256/32 keys with mixed heights H5/H10: "
                "leaf indices in its signatures and the key file it writes back, for counters at and around radix boundaries"]
 
@@ -68,6 +68,21 @@ def run(ctx):
                         ctx.fail("leaf indices / successor key differ from the hash-sigs tool for the same key file", ["counter %d heights %s" % (cnt, hts)], str([l["q"] for l in lv2]), str([l["q"] for l in lv]))
         finally:
             tool.close()
+    # end to end on affordable keys: the successor handed over by signing is counter+1 and, after the last leaf, exactly the wiped
+    # state (counter 0, parameter bytes ff, seed 0 - the form the hash-sigs tools recognise as an expired key)
+    e2e = []
+    for i, ps in enumerate([[(3, 1)], [(3, 5)], [(2, 1), (3, 5)], [(3, 5), (2, 1)], [(3, 1), (2, 1), (3, 1)], [(2, 5), (3, 5)]]):
+        H = ALL_H[i % 6]
+        seed = rng.bytes_(HASHES[H])
+        hts = heights_of(ps)
+        N = 1 << sum(hts)
+        for cnt in sorted({0, N - 2, N - 1, (1 << hts[-1]) - 1}):
+            e2e.append(Case(sign_line(H, sk_blob(H, ps, seed, cnt), b"successor"), "sign/successor-state", {"H": H, "ps": ps, "seed": seed, "c": cnt, "N": N}))
+    for c, a, b in ctx.both(e2e, None):
+        m = c.meta
+        exp = (bytes(8) + b"\xff" * 8 + bytes(HASHES[m["H"]])) if m["c"] + 1 >= m["N"] else sk_blob(m["H"], m["ps"], m["seed"], m["c"] + 1)
+        if fields(a).get("cb") != exp.hex():
+            ctx.fail("the successor of a counter is not counter+1 / the wiped state after the last leaf", [c.line], str(fields(a).get("cb")), exp.hex())
     for c, a, b in ctx.both(cases, None):
         hs, cnt = c.meta["hs"], c.meta["c"]
         tot = sum(hs)
